@@ -238,8 +238,14 @@ func historyInfo(idx int64) map[string]interface{} {
 // those goroutines become tasks as well (scheduled deterministically: with an
 // exhausted tape a helper goroutine runs when its parent blocks). A panic in f
 // or in a goroutine it started is re-raised in the caller.
+// forceTasks makes simCall run f as a simulator task even when the code under
+// test has no goroutines of its own: a call that blocks for ever on a lock
+// (left locked by an earlier call that panicked, say) is then a deadlock
+// verdict instead of a hung worker.
+var forceTasks bool
+
 func simCall(f func()) {
-	if !*flagLibGo {
+	if (!*flagLibGo && !forceTasks) || simrt.InTask() {
 		f()
 		return
 	}
